@@ -4,8 +4,10 @@ go 1.26.8
 
 require (
 	github.com/ontio/ontology-crypto v1.0.9
+	github.com/ontio/ontology-eventbus v0.9.1
 	github.com/polynetwork/poly v0.0.0
 	github.com/syndtr/goleveldb v1.0.1-0.20200815110645-5c35d600f0ca
+	golang.org/x/crypto v0.0.0-20220214200702-86341886e292
 )
 
 require (
@@ -57,7 +59,6 @@ require (
 	github.com/novifinancial/serde-reflection/serde-generate/runtime/golang v0.0.0-20210526181959-1694c58d103e // indirect
 	github.com/olekukonko/tablewriter v0.0.2-0.20190409134802-7e037d187b0c // indirect
 	github.com/ontio/ontology v1.11.1-0.20200812075204-26cf1fa5dd47 // indirect
-	github.com/ontio/ontology-eventbus v0.9.1 // indirect
 	github.com/orcaman/concurrent-map v0.0.0-20190826125027-8c72a8bb44f6 // indirect
 	github.com/phoreproject/bls v0.0.0-20200525203911-a88a5ae26844 // indirect
 	github.com/pkg/errors v0.9.1 // indirect
@@ -77,8 +78,8 @@ require (
 	github.com/tendermint/iavl v0.14.0 // indirect
 	github.com/tendermint/tendermint v0.33.7 // indirect
 	github.com/tendermint/tm-db v0.5.1 // indirect
+	github.com/valyala/bytebufferpool v1.0.0 // indirect
 	github.com/zquestz/grab v0.0.0-20190224022517-abcee96e61b1 // indirect
-	golang.org/x/crypto v0.0.0-20220214200702-86341886e292 // indirect
 	golang.org/x/net v0.0.0-20211112202133-69e39bad7dc2 // indirect
 	golang.org/x/sys v0.0.0-20220222160653-b146bcec3beb // indirect
 	golang.org/x/text v0.3.6 // indirect
